@@ -347,4 +347,8 @@ def run(F, rep):
     from engines import rule_loop_state
     rule_loop_state(F, rep, 'C06.S1', lambda g: g.file.endswith(('/importer.cpp', '/utilities.cpp')), 'importer.cpp and utilities.cpp')
 
+    # ------------------------------------------------------------------ XML text is read through the XML API
+    from engines import rule_markup_search
+    rule_markup_search(F, rep, 'C06.X1', lambda g: '/src/' in g.file and not g.file.endswith('/printer.cpp'), 'the library (printer excepted, which writes markup)')
+
 
